@@ -35,7 +35,7 @@ SECW_PLURAL = {'Sec ': 'Secs ', 'Section ': 'Sections ', 'Sec. ': 'Secs. ', 'Sec
 ANDW = [' and ', ', ', ' & ', ' AND ', ' And ']
 THRU = [' - ', '-', ' through ', ' thru ', ' to ', ' – ', ' Through ', ' THRU ', ' To ']
 CONN = [' of ', ' in ', ', ']
-SEP = [', ', '; ', '\n', ' ', ', \n\n', ';\n', '\r\n', ',  ', '\t', ' \n']      # incl. a paragraph break, CRLF, double blank, tab
+SEP = [', ', '; ', '\n', ' ', ', \n\n', ';\n', '\r\n', ',  ', '\t', ' \n', '\r']      # incl. a paragraph break, CRLF, lone CR, double blank, tab
 COLON = [': ', ' : ', ':\n', ' :\n', ':']
 DIRS = [('N', 'W'), ('S', 'E'), ('N', 'E'), ('S', 'W')]
 # (twp, rge) replacing the structure's own numbers, per Twp/Rge group position
